@@ -8,7 +8,7 @@ from ..prop import Prop
 from ..ref import clock
 
 ZONES = ["UTC", "Asia/Jerusalem", "America/New_York", "Pacific/Kiritimati", "Pacific/Pago_Pago",
-         "Asia/Kathmandu", "America/Los_Angeles", "Australia/Sydney"]
+         "Asia/Kathmandu", "America/Los_Angeles", "Australia/Sydney", "Europe/Berlin", "Australia/Lord_Howe"]
 WD = clock.WEEKDAYS
 DAY_NAMES = ["MONDAY", "TUESDAY", "WEDNESDAY", "THURSDAY", "FRIDAY", "SATURDAY", "SUNDAY"]
 ALL_SETS = [frozenset(c) for n in range(0, 8) for c in combinations(range(7), n)]  # 128
@@ -59,6 +59,13 @@ class C13(Prop):
                                (2025, 2, 28), (2026, 3, 31), (2026, 4, 30), (2026, 11, 30)):
                 noon = int(datetime(y, mo, d, 12, 0, tzinfo=timezone.utc).timestamp())
                 instants += [noon - 9 * 3600, noon, noon + 9 * 3600]
+            # the days around a change of the zone's UTC offset, hour by hour from the evening before to the morning after ("the same
+            # moment tomorrow" is 23 or 25 hours away there)
+            for t in clock.transitions(zone, 2024, 2027):
+                loc = clock.local(zone, t - 1)
+                day_start = t - 1 - (loc.hour * 3600 + loc.minute * 60 + loc.second)
+                for h in (-3, -2, -1, -0.5, 0.5, 1, 2, 3, 22, 23, 23.5, 24.5, 25, 26):
+                    instants.append(int(day_start + h * 3600 + r.randrange(0, 1700)))
             for now in instants:
                 if i % nshards == shard:
                     yield {"zone": zone, "now": now, "extra": extra}
